@@ -79,6 +79,8 @@ class Suite:
         nk = progs[0].nk
         what = 'program seed=%d [%s] flags=%s cfg: %s' % (seed, ','.join(getattr(progs[0], 'motifs', [])), ' '.join(ptg_flags) or '-', cfg.short())
         state = {}
+        if getattr(self, 'feat_fn', None):
+            feat = self.feat_fn(feat, progs, refs, cfg, e1run.placement_table(nk, cfg.ranks, cfg.place, cfg.pseed))
 
         def runner():
             outdir = os.path.join(ctx.work, 'o%d_%d_%d_%d' % (idx, vi, ci, state.get('n', 0)))
@@ -126,11 +128,24 @@ class Suite:
     def _triage(self, r, what, feat, files):
         """like ctx.absorb, but programs carrying a risky (known-finding) feature get coarse, stable keys"""
         ctx = self.ctx
-        if feat != 'ptg' and not (r.stalled or r.timed_out) and (r.san or r.signal is not None or r.rc not in (0, 1)):
+        if feat != 'ptg' and (r.san or (not (r.stalled or r.timed_out) and (r.signal is not None or r.rc not in (0, 1)))):
             head = (r.san[0].strip().splitlines() or [''])[1 if len(r.san[0].strip().splitlines()) > 1 else 0] if r.san else ('signal %s rc %s' % (r.signal, r.rc))
             if ctx.violation(feat + ':crash', '%s crashed: %s' % (what, head[:300]), r, files): return 'violation'
             return 'known'
-        return ctx.absorb(r, what, feat, files=files)
+        st = ctx.absorb(r, what, feat, files=files)
+        if st == 'stalled':
+            # only a run in which every rank had started its context can be judged "no progress"
+            last = {}
+            for l in r.stderr.splitlines():
+                w = l.split()
+                if len(w) >= 4 and w[0] == 'VFHB':
+                    try: last[int(w[1])] = int(w[2])
+                    except ValueError: pass
+            nr = getattr(r, 'nranks', 1)
+            if any(last.get(k, 0) < 2 for k in range(nr)) or any(v == 3 for v in last.values()) and not all(v >= 2 for v in last.values()):
+                ctx.inconclusive_case('%s: killed while a rank was still initialising (phases %s) — machine load, not judged' % (what, last))
+                return 'inconclusive'
+        return st
 
     def _run_stall(self, runner, what, feat, files):
         ctx = self.ctx
@@ -159,6 +174,20 @@ class Suite:
         for k, v in self.stats.items(): ctx.cov[k] = v
         ctx.cov['schedulers'] = sorted(self.scheds); ctx.cov['threads_per_rank'] = sorted(self.cores); ctx.cov['ranks'] = sorted(self.ranks)
         ctx.cov['motifs'] = self.motifs; ctx.cov['dep_backends'] = sorted(self.backends); ctx.cov['oracles'] = sorted(self.oracles)
+
+
+def differing_dest_sets(ref, table):
+    """does some task instance have >= 2 data output flows whose sets of REMOTE destination ranks are non-empty and differ?"""
+    for k in ref.inst:
+        me = table[ref.placement(k)]
+        sets = {}
+        for (sf, d, df) in ref.succ.get(k, []):
+            if ref.p.classes[k[0]].flows[sf].mode == 'CTL': continue
+            rk = table[ref.placement(d)]
+            if rk != me: sets.setdefault(sf, set()).add(rk)
+        vals = [frozenset(v) for v in sets.values()]
+        if len(vals) >= 2 and len(set(vals)) >= 2: return True
+    return False
 
 
 def sample_of(prog, ref):
